@@ -31,8 +31,11 @@ open Spec.Seq (wdec)
 /-- abstraction: the live slots in index order -/
 def abs (a : Arr) : List Nat := (List.range a.size).map a.buf.get
 
-/-- representation invariant -/
-def Inv (a : Arr) : Prop := a.size ≤ a.capacity ∧ a.capacity ≤ a.buf.length ∧ 1 ≤ a.capacity
+/-- representation invariant: the live slots fit the capacity, the capacity fits the allocated
+block, the capacity is at least 1 and at most `CC_MAX_ELEMENTS` (the constructor rejects larger
+values, and `expand_capacity` stops there) -/
+def Inv (a : Arr) : Prop :=
+  a.size ≤ a.capacity ∧ a.capacity ≤ a.buf.length ∧ 1 ≤ a.capacity ∧ a.capacity ≤ Gen.CC_MAX_ELEMENTS
 
 instance (a : Arr) : Decidable a.Inv := by unfold Inv; infer_instance
 
